@@ -112,18 +112,13 @@ def reallocExact (origin : Workload) (raw : RawReq) : Prop :=
 instance (origin : Workload) (raw : RawReq) : Decidable (reallocExact origin raw) := by
   unfold reallocExact; exact inferInstance
 
-/-- `CalculateRealloc`: `raw` holds the deltas (CPU in thousandths, memory); the request is validated
-    *after* adding the deltas and the validated values are the ones planned and recorded. -/
-def calculateRealloc (info : NodeInfo) (B maxShare : Int) (origin : Workload) (raw : RawReq) (order : List String) : Outcome Workload :=
-  if ¬ reallocExact origin raw then .err "unmodelled" else
-  let bind := if raw.keepBind then !origin.cpuMap.isEmpty else raw.bind
-  let info' : NodeInfo := { info with use := info.use.sub { cpuMap := origin.cpuMap, mem := origin.memReq, numaMem := origin.numaMem } }
-  let newReq : RawReq := { bind := bind, cpuReq := raw.cpuReq + origin.cpuReq, cpuLim := raw.cpuLim + origin.cpuLim,
-                           memReq := raw.memReq + origin.memReq, memLim := raw.memLim + origin.memLim }
+/-- the body of `CalculateRealloc` after the sums: `newReq` is validated, and the *validated* values are
+    the ones planned and recorded (for a bound request `Validate` raises the request to the limit) -/
+def reallocCore (info' : NodeInfo) (B maxShare : Int) (originMap : CpuMap) (newReq : RawReq) (order : List String) : Outcome Workload :=
   match newReq.validate with
   | .ok w =>
-    if bind then
-      match getCPUPlans info' origin.cpuMap B maxShare w.toReq order with
+    if newReq.bind then
+      match getCPUPlans info' originMap B maxShare w.toReq order with
       | .ok [] => .err errInsufficientResource
       | .ok (p :: _) =>
         .ok { cpuReq := w.cpuReq, cpuLim := w.cpuLim, memReq := w.memReq, memLim := w.memLim, cpuMap := p.cpuMap, numa := p.numa,
@@ -140,5 +135,26 @@ def calculateRealloc (info : NodeInfo) (B maxShare : Int) (origin : Workload) (r
   | .err e => .err e
   | .panic m => .panic m
   | .diverge => .diverge
+
+/-- the node with the workload's resources put back into the pool -/
+def givenBack (info : NodeInfo) (origin : Workload) : NodeInfo :=
+  { info with use := info.use.sub { cpuMap := origin.cpuMap, mem := origin.memReq, numaMem := origin.numaMem } }
+
+/-- the request `CalculateRealloc` validates: old amounts plus deltas -/
+def reallocReq (origin : Workload) (raw : RawReq) : RawReq :=
+  { bind := if raw.keepBind then !origin.cpuMap.isEmpty else raw.bind,
+    cpuReq := raw.cpuReq + origin.cpuReq, cpuLim := raw.cpuLim + origin.cpuLim,
+    memReq := raw.memReq + origin.memReq, memLim := raw.memLim + origin.memLim }
+
+/-- `CalculateRealloc`: everything after the float sums is `reallocCore`; the float-exactness guard
+    only decides whether the integer sums of `reallocReq` are what the Go code computes. -/
+def calculateRealloc (info : NodeInfo) (B maxShare : Int) (origin : Workload) (raw : RawReq) (order : List String) : Outcome Workload :=
+  if ¬ reallocExact origin raw then .err "unmodelled"
+  else reallocCore (givenBack info origin) B maxShare origin.cpuMap (reallocReq origin raw) order
+
+/-- `deltaWorkloadResource = newResource.DeepCopy().Sub(origin)` (CPU request and CPU map) -/
+def reallocDelta (origin new : Workload) : Workload :=
+  { cpuReq := new.cpuReq - origin.cpuReq, cpuLim := new.cpuLim - origin.cpuLim, memReq := new.memReq - origin.memReq,
+    memLim := new.memLim, cpuMap := mapSub new.cpuMap origin.cpuMap, numaMem := mapSub new.numaMem origin.numaMem, numa := new.numa }
 
 end Eru.CpuMem
